@@ -21,7 +21,7 @@ import itertools
 
 import numpy as np
 
-from .. import biv, cases, vinegen
+from .. import biv, cases, vinebuildgen, vinegen
 from .. import vinestruct as VS
 
 VTS = ('center', 'direct', 'regular')
@@ -443,6 +443,12 @@ def _run(ctx):
     vinegen.record(ctx, kstatus, [k for k in vinegen.NAMES if k != 'gen_get_conditional_uni'])
     ctx.copy_src('Props/C16.v')
     ctx.compile(['Gen_bivq.v', 'Gen_vinekernel.v', 'C16.v'])
+    # the tree construction (sort_tau_by_y, the builders, Tree.fit, train_vine), generated from the AST and proved equal to Model.Vine
+    # ([C16_bridge_*] in Props/C16_build.v); compiled separately so that a failure here does not hide the theorems of C16.v
+    bstatus = vinebuildgen.generate(ctx, kstatus)
+    vinebuildgen.record(ctx, bstatus)
+    ctx.copy_src('Props/C16_build.v')
+    ctx.compile(['Gen_vinebuild.v', 'C16_build.v'])
     ctx.rule('unit level: real VineCopula.train_vine + Tree.fit + CenterTree/DirectTree/RegularTree with synthetic tau matrices per level '
              '(select_copula, get_tau_matrix, prepare_next_tree stubbed): every strict ordering of the pairwise |tau| ranks for d = 2,3,4 '
              '(40 sampled orderings of the 720 for d = 4 in the quick tier) with random signs, and boundary-biased random matrices for d = 2..7 '
@@ -466,7 +472,9 @@ def _run(ctx):
                     '(family, theta) pairs are captured values',
                     "numpy argsort tie-breaking and Python set iteration order enter the model as recorded data (the theorems hold for every order / every "
                     "tie-breaking that sorts row 0 last)",
-                    'the harness instruments copulas.multivariate.tree by monkeypatching (Tree.fit, _sort_tau_by_y, _check_constraint, sorted, np.empty, select_copula), restored afterwards']
+                    'the harness instruments copulas.multivariate.tree by monkeypatching (Tree.fit, _sort_tau_by_y, _check_constraint, sorted, np.empty, select_copula), restored afterwards',
+                    'tree construction (_sort_tau_by_y, get_anchor, Center/Direct builders, get_tree, Tree.fit, train_vine, VineCopula.fit slice) generated from the AST by tools/vf/vinebuildgen.py and '
+                    'proved equal to Model.Vine in Props/C16_build.v; trusted: the translator and the numpy denotations of coq/Lib/PyMat.v; RegularTree builders are not generated (docs/vinebuild_section.md)']
     ctx.assumptions += ['tau entries are finite floats or NaN (exact rationals in the model); level-1 tau has no entry <= -10 (true of any Kendall tau) for the D-vine path theorem',
                         'proximity of regular vines beyond tree 3 and "no pair conditioned twice" for regular vines are not proved in general: checked per run by valid_vine',
                         'statistical content (which family is selected, quality of theta) is C10/C11; here only: the edge stores what select_copula returned and theta passes check_theta',
